@@ -87,6 +87,18 @@ Definition C18_step_bounded : Prop :=
     libref (db s') <> libref (db s) ->
     bounded (db s') (c_kept cfg).
 
+(* the store AddLink leaves behind: the incoming block appended (or written over the link-less entry
+   with its id) when it is stored, else the store as it was *)
+Definition after_add (cfg : config) (s : fstate) (b : block) : list entry :=
+  if stores_incoming cfg s b then put (mkEntry b false) (store (db s)) else store (db s).
+
+(* c18_step_purge_or_keep: for EVERY step (LIB discovery included) the only removal is the purge:
+   either nothing is removed at all, or what is left is bounded by the cutoff of the new LIB *)
+Definition C18_step_purge_or_keep : Prop :=
+  forall cfg s b s' evs r,
+    fk_step cfg s b = (s', evs, r) ->
+    (forall e, In e (after_add cfg s b) -> holds s' e) \/ bounded (db s') (c_kept cfg).
+
 (* c18_step_retained: whatever was stored at or above the new cutoff is still stored.
    (An entry whose parent id is empty has no link — Exists() is false for it — so AddLink of a block
    with the same id overwrites it: that entry is the only one a step can replace.) *)
@@ -171,6 +183,23 @@ Definition C18_run_received_found : Prop :=
     (forall j sj, (k < j <= m)%nat -> nth_error (states_of cfg s0 h) j = Some sj ->
                   cutoff (db sj) (c_kept cfg) <= bnum b) ->
     holds sm (mkEntry b false) /\
+    get_block_by_hash sm (bid b) = true /\
+    exists l, all_blocks_at sm (bnum b) = Some l /\ In (bid b) l.
+
+(* the reading "at or above the LIB": when the LIB number never was above the current one (finality is
+   never revoked: C02), a block received at position k whose number is at or above the CURRENT LIB is
+   returned by both lookups *)
+Definition C18_run_received_at_lib : Prop :=
+  forall cfg s0 h k m b sk sm,
+    (k < m)%nat ->
+    nth_error h k = Some b ->
+    nth_error (states_of cfg s0 h) k = Some sk ->
+    nth_error (states_of cfg s0 h) m = Some sm ->
+    stores_incoming cfg sk b = true ->
+    (forall j b', (k < j < m)%nat -> nth_error h j = Some b' -> bid b = bid b' -> bparent b <> 0) ->
+    (forall j sj, (k < j <= m)%nat -> nth_error (states_of cfg s0 h) j = Some sj ->
+                  rn (libref (db sj)) <= rn (libref (db sm))) ->
+    rn (libref (db sm)) <= bnum b ->
     get_block_by_hash sm (bid b) = true /\
     exists l, all_blocks_at sm (bnum b) = Some l /\ In (bid b) l.
 
